@@ -18,6 +18,10 @@ type CharSet struct {
 	sub        *CharSet //optional subtractor
 	negate     bool
 	anything   bool
+	// flipped records that negate was set by canonicalize (the class was
+	// rewritten as "everything but one range"), not by the pattern. Members
+	// added later belong to the positive class, so it is written back first.
+	flipped bool
 
 	ascii *asciiBitmap
 }
@@ -171,6 +175,7 @@ func (c CharSet) Copy() CharSet {
 	ret := CharSet{
 		anything: c.anything,
 		negate:   c.negate,
+		flipped:  c.flipped,
 	}
 
 	ret.ranges = append(ret.ranges, c.ranges...)
@@ -564,6 +569,7 @@ func (c *CharSet) addSet(set CharSet) {
 		c.makeAnything()
 		return
 	}
+	c.unflip()
 	// just append here to prevent double-canon
 	c.ranges = append(c.ranges, set.ranges...)
 	c.addCategories(set.categories...)
@@ -583,6 +589,7 @@ func (c *CharSet) addCategories(cats ...Category) {
 		// just return, we're as broad as we can get
 		return
 	}
+	c.unflip()
 
 	for _, ct := range cats {
 		found := false
@@ -610,6 +617,7 @@ func (c *CharSet) addRanges(ranges []SingleRange) {
 	if c.anything {
 		return
 	}
+	c.unflip()
 	c.ranges = append(c.ranges, ranges...)
 	c.canonicalize()
 }
@@ -619,6 +627,7 @@ func (c *CharSet) addNegativeRanges(ranges []SingleRange) {
 	if c.anything {
 		return
 	}
+	c.unflip()
 
 	var hi rune
 
@@ -724,6 +733,7 @@ func (c *CharSet) addCaseEquivalences() {
 	if c.anything {
 		return
 	}
+	c.unflip()
 	rangeCount := len(c.ranges)
 	for i := 0; i < rangeCount; i++ {
 		r := c.ranges[i]
@@ -762,8 +772,32 @@ func (c *CharSet) addSubtraction(sub *CharSet) {
 }
 
 func (c *CharSet) addRange(chMin, chMax rune) {
+	c.unflip()
 	c.ranges = append(c.ranges, SingleRange{First: chMin, Last: chMax})
 	c.canonicalize()
+}
+
+// unflip writes a class that canonicalize turned into "everything but one
+// range" back in its positive form, so that more members can be added to it.
+func (c *CharSet) unflip() {
+	if !c.flipped {
+		return
+	}
+	excluded := c.ranges
+	c.ranges = make([]SingleRange, 0, len(excluded)+1)
+	c.negate = false
+	c.flipped = false
+
+	var hi rune
+	for _, r := range excluded {
+		if hi < r.First {
+			c.ranges = append(c.ranges, SingleRange{hi, r.First - 1})
+		}
+		hi = r.Last + 1
+	}
+	if hi <= utf8.MaxRune {
+		c.ranges = append(c.ranges, SingleRange{hi, utf8.MaxRune})
+	}
 }
 
 func (c *CharSet) addNamedASCII(name string, negate bool) bool {
@@ -882,6 +916,7 @@ func (c *CharSet) canonicalize() {
 				c.ranges[0].Last < c.ranges[1].First-1 {
 				c.ranges = []SingleRange{{c.ranges[0].Last + 1, c.ranges[1].First - 1}}
 				c.negate = true
+				c.flipped = true
 			}
 		} else if len(c.ranges) == 1 {
 			switch c.ranges[0].First {
@@ -890,12 +925,14 @@ func (c *CharSet) canonicalize() {
 				if c.ranges[0].Last == unicode.MaxRune-1 {
 					c.ranges[0] = SingleRange{unicode.MaxRune, unicode.MaxRune}
 					c.negate = true
+					c.flipped = true
 				}
 			case 1:
 				// Or everything but the first char?
 				if c.ranges[0].Last >= unicode.MaxRune {
 					c.ranges[0] = SingleRange{'\x00', '\x00'}
 					c.negate = true
+					c.flipped = true
 				}
 			}
 		}
@@ -926,6 +963,7 @@ func (c *CharSet) canonicalize() {
 			c.makeAnything()
 		} else {
 			c.negate = true
+			c.flipped = true
 			c.ranges = []SingleRange{{c.ranges[0].Last + 1, c.ranges[0].Last + 1}}
 			c.categories = []Category{}
 		}
@@ -938,6 +976,7 @@ func (c *CharSet) addLowercase() {
 	if c.anything {
 		return
 	}
+	c.unflip()
 	toAdd := []SingleRange{}
 	for i := 0; i < len(c.ranges); i++ {
 		r := c.ranges[i]
